@@ -76,7 +76,7 @@ def build_lib(variant="asan"):
         os.utime(bdir)
         return bdir
     os.makedirs(bdir, exist_ok=True)
-    _prune(2)
+    _prune(8)
     flags = FLAGS[variant]
     t0 = time.time()
     cmd = ["cmake", "-G", "Ninja", "-S", REPO, "-B", bdir,
